@@ -994,20 +994,24 @@ def materialise(spec, faults, name_suffix=""):
     def _nm(cls):
         return cls.__name__[:len(cls.__name__) - len(name_suffix)] if name_suffix else cls.__name__
 
+    def _sig(args, kwargs):
+        # what the user's __new__ was handed: it sees the constructor's arguments
+        return f"({len(args)},{','.join(sorted(kwargs))})"
+
     class Mixin:
         def describe(self):
             return type(self).__name__
 
     class NewBase:
         def __new__(cls, *args, **kwargs):
-            new_log.append("base:" + _nm(cls))
+            new_log.append("base:" + _nm(cls) + _sig(args, kwargs))
             return object.__new__(cls)
 
     shape = h.get("new_shape")
     bases = {None: (), "own": (), "base": (NewBase,), "mixin": (Mixin,), "mixin_base": (Mixin, NewBase)}[shape]
     if shape == "own":
         def own_new(cls, *args, **kwargs):
-            new_log.append("own:" + _nm(cls))
+            new_log.append("own:" + _nm(cls) + _sig(args, kwargs))
             return object.__new__(cls)
         ns["__new__"] = own_new
     Host = type("Host" + name_suffix, bases, ns)
@@ -1062,7 +1066,7 @@ def materialise(spec, faults, name_suffix=""):
             sns["__annotations__"] = sann
         if sub.get("own_new"):
             def sub_new(cls, *args, **kwargs):
-                new_log.append("sub:" + _nm(cls))
+                new_log.append("sub:" + _nm(cls) + _sig(args, kwargs))
                 if sub["own_new"] == "direct":
                     return object.__new__(cls)  # (does not go through the parents' __new__ at all)
                 return super(classes["sub"], cls).__new__(cls)
